@@ -221,12 +221,21 @@ func generate(t *kernel.Tape) *scn {
 	}
 	s.T.BodyChunk = t.Choose(4, "bchunk")
 	s.T.BodyFixed = 1 + t.Choose(300, "bfixed")
+	if s.T.Status != 204 && t.Bool(12, "large-response-body") {
+		// larger than any buffer or cap a drain might use; delivered in large pieces so the run stays short
+		s.T.BodyLen = 300000 + t.Choose(400000, "large-blen")
+		s.T.BodyChunk = kernel.ChunkFixed
+		s.T.BodyFixed = 20000 + t.Choose(50000, "large-bfixed")
+	}
 	s.T.BodyZero = t.Choose(3, "bzero")
 	s.T.BodyWithData = t.Bool(2, "bwithdata")
 	s.T.DeclareLen = t.Bool(2, "declare")
 	s.R.Mode = t.Weighted("reader-mode", 4, 2, 1)
 	s.R.K = t.Choose(s.T.BodyLen+2, "reader-k")
 	s.R.Buf = []int{512, 1, 7, 4096}[t.Choose(4, "reader-buf")]
+	if s.T.BodyLen > 100000 {
+		s.R.Buf = 32768
+	}
 	s.R.Close = t.Bool(2, "reader-close")
 	s.R.Propagate = !t.Bool(4, "reader-swallow")
 	s.R.Fail = t.Bool(8, "reader-fail")
